@@ -1,0 +1,1 @@
+//! Verification hooks (conn); see `verif/mod.rs`.
